@@ -44,12 +44,22 @@ class Facts:
 
     def _hook(self, a, lf):
         ensures_hook(a, lf)
-        if self.forall:
-            seq = element_of(a)
-            if seq is not None:
-                for s_, bound in self.forall:
-                    if same_seq(s_, seq):
-                        lf.add_le(a, bound, strict=True)
+        seq = element_of(a)
+        n = 0
+        while seq is not None and n < 4:
+            n += 1
+            for s_, bound in self.forall:
+                if same_seq(s_, seq):
+                    lf.add_le(a, bound, strict=True)
+            # an element of `S.filter(|&i| i < K)` is below K and is an element of S
+            if isinstance(seq, tuple) and seq and seq[0] == "call" and isinstance(seq[1], str) and seq[1].endswith("Iterator::filter") and len(seq[2]) == 2:
+                if FB is not None:
+                    b = closure_bound(seq[2][1], ("Lt", "Le"))
+                    if b is not None:
+                        lf.add_le(a, b[1], strict=(b[0] == "Lt"))
+                seq = strip_iter(seq[2][0])
+            else:
+                break
 
     def add_cond(self, atom, val):
         if val is None:
@@ -77,6 +87,8 @@ class Facts:
         (self.true if val else self.false).add(t)
         if not isinstance(t, tuple) or not t:
             return
+        if t[0] == "is_empty" and val is False:
+            self._add("<=", mk_const("usize", 1), ("len", t[1]))
         if t[0] == "call" and isinstance(t[1], str) and t[1].endswith("Iterator>::any") and val is False and FB is not None:
             # `seq.iter().any(|&i| i >= K)` is false: every element is below K
             b = any_bound(t)
@@ -232,8 +244,16 @@ def element_of(a):
 
 def any_bound(t):
     """K for a term any(seq, closure) whose closure is |&i| i >= K, K built from the closure's captures"""
+    b = closure_bound(t[2][1], ("Ge", "Gt"))
+    if b is None:
+        return None
+    from .symex import fold_bin as _fb
+    return _fb("Add", b[1], mk_const("usize", 1)) if b[0] == "Gt" else b[1]
+
+
+def closure_bound(cl, ops):
+    """(op, K) for a closure term whose body is the single comparison `element op K` with op in ops, K built from the captures"""
     from .symex import Engine, subst
-    cl = t[2][1]
     if not (isinstance(cl, tuple) and cl[0] == "closure"):
         return None
     it = FB.items.get(cl[1])
@@ -244,7 +264,7 @@ def any_bound(t):
     if len(ps) != 1:
         return None
     rv = eng.value_of(ps[0].store, ps[0].ret)
-    if not (isinstance(rv, tuple) and rv[0] == "bin" and rv[1] in ("Ge", "Gt")):
+    if not (isinstance(rv, tuple) and rv[0] == "bin" and rv[1] in ops):
         return None
     elem, k = rv[2], rv[3]
     if not (elem == ("param", 2) or (isinstance(elem, tuple) and elem[0] in ("field",) and elem[1] == ("param", 2))):
@@ -259,9 +279,7 @@ def any_bound(t):
     if any(x == ("param", 1) or x == ("param", 2) for x in _st(("t", k1))):
         return None
     k2 = subst(k1, m2)
-    if rv[1] == "Gt":
-        k2 = fold_bin("Add", k2, mk_const("usize", 1))
-    return k2
+    return (rv[1], k2)
 
 
 def split_const(t):
